@@ -1,6 +1,7 @@
 import Amgcl.Model.RigidBodyModes
 import Mathlib.Algebra.BigOperators.Group.Finset.Basic
 import Mathlib.Algebra.BigOperators.Ring.Finset
+import Mathlib.Algebra.BigOperators.Group.Finset.Sigma
 import Mathlib.Algebra.Field.Basic
 import Mathlib.Tactic.Ring
 import Mathlib.Tactic.FieldSimp
@@ -308,6 +309,233 @@ theorem gsStep_spec (sqrt : K → K) (L : Lay s1 s2 n nm sz) (B : Array K) (hB :
     · rw [if_neg hki, if_neg hki, hP1, hs.2 j k hj hk, if_pos hj]
       unfold subG
       rw [if_neg hki]
+
+/-- induction over the iterations of the loop l.111-126 (`t` = number of iterations done) -/
+theorem orthonormalize_induct (sqrt : K → K) (ndim : Nat) (M : Nat → Array K × List K → Prop) (B : Array K)
+    (h0 : M 0 (B, []))
+    (hstep : ∀ t Bl, M t Bl → ndim + t < nm →
+      M (t + 1) ((gsStep sqrt s1 s2 n (ndim + t) Bl.1).1, (gsStep sqrt s1 s2 n (ndim + t) Bl.1).2 :: Bl.2)) :
+    M (nm - ndim) (orthonormalize sqrt s1 s2 n ndim nm B) := by
+  unfold orthonormalize
+  have : ∀ c, c ≤ nm - ndim → M c ((List.range c).foldl (fun (Bl : Array K × List K) t =>
+      let r := gsStep sqrt s1 s2 n (ndim + t) Bl.1
+      (r.1, r.2 :: Bl.2)) (B, [])) := by
+    intro c
+    induction c with
+    | zero => intro _; simpa using h0
+    | succ c ih =>
+      intro hc
+      rw [List.range_succ, List.foldl_append]
+      simp only [List.foldl_cons, List.foldl_nil]
+      exact hstep c _ (ih (by omega)) (by omega)
+  exact this _ (le_refl _)
+
+/-- `Σ_j a_j · B[j,k]` -/
+def colDot (s1 s2 n : Nat) (a : Nat → K) (B : Array K) (k : Nat) : K := ∑ j ∈ range n, a j * cell s1 s2 B j k
+
+theorem colDot_gsW (a : Nat → K) (B : Array K) (i : Nat) :
+    ∑ j ∈ range n, a j * gsW s1 s2 n i B j
+      = colDot s1 s2 n a B i
+        - ∑ k ∈ range i, (∑ j' ∈ range n, cell s1 s2 B j' k * cell s1 s2 B j' i) * colDot s1 s2 n a B k := by
+  unfold gsW colDot
+  simp only [mul_sub, Finset.sum_sub_distrib, Finset.mul_sum]
+  congr 1
+  rw [Finset.sum_comm]
+  apply Finset.sum_congr rfl
+  intro k _
+  apply Finset.sum_congr rfl
+  intro j _
+  ring
+
+theorem colDot_step_other (sqrt : K → K) (L : Lay s1 s2 n nm sz) (B : Array K) (hB : B.size = sz) {i k : Nat}
+    (hi : i < nm) (hnm : nm ≤ 6) (hk : k < nm) (hki : k ≠ i) (a : Nat → K) :
+    colDot s1 s2 n a (gsStep sqrt s1 s2 n i B).1 k = colDot s1 s2 n a B k := by
+  unfold colDot
+  apply Finset.sum_congr rfl
+  intro j hj
+  rw [(gsStep_spec sqrt L B hB hi hnm).2.2 j k (Finset.mem_range.mp hj) hk, if_neg hki]
+
+theorem colDot_step_self (sqrt : K → K) (L : Lay s1 s2 n nm sz) (B : Array K) (hB : B.size = sz) {i : Nat}
+    (hi : i < nm) (hnm : nm ≤ 6) (a : Nat → K) :
+    colDot s1 s2 n a (gsStep sqrt s1 s2 n i B).1 i
+      = (∑ j ∈ range n, a j * gsW s1 s2 n i B j) / (gsStep sqrt s1 s2 n i B).2 := by
+  unfold colDot
+  rw [div_eq_mul_inv, Finset.sum_mul]
+  apply Finset.sum_congr rfl
+  intro j hj
+  rw [(gsStep_spec sqrt L B hB hi hnm).2.2 j i (Finset.mem_range.mp hj) hi, if_pos rfl, div_eq_mul_inv, mul_assoc]
+
+/-- a row vector that annihilates every column before an iteration annihilates every column after it -/
+theorem annihilates_step (sqrt : K → K) (L : Lay s1 s2 n nm sz) (B : Array K) (hB : B.size = sz) {i : Nat}
+    (hi : i < nm) (hnm : nm ≤ 6) (a : Nat → K) (h : ∀ k, k < nm → colDot s1 s2 n a B k = 0) :
+    ∀ k, k < nm → colDot s1 s2 n a (gsStep sqrt s1 s2 n i B).1 k = 0 := by
+  intro k hk
+  by_cases hki : k = i
+  · subst hki
+    rw [colDot_step_self sqrt L B hB hk hnm a, colDot_gsW, h k hk]
+    have : ∑ k' ∈ range k, (∑ j' ∈ range n, cell s1 s2 B j' k' * cell s1 s2 B j' k) * colDot s1 s2 n a B k' = 0 := by
+      apply Finset.sum_eq_zero
+      intro k' hk'
+      rw [h k' (by have := Finset.mem_range.mp hk'; omega), mul_zero]
+    rw [this]; simp
+  · rw [colDot_step_other sqrt L B hB hi hnm hk hki a]; exact h k hk
+
+/-- … and conversely when the divisor is not zero -/
+theorem annihilates_step_conv (sqrt : K → K) (L : Lay s1 s2 n nm sz) (B : Array K) (hB : B.size = sz) {i : Nat}
+    (hi : i < nm) (hnm : nm ≤ 6) (a : Nat → K) (hs : (gsStep sqrt s1 s2 n i B).2 ≠ 0)
+    (h : ∀ k, k < nm → colDot s1 s2 n a (gsStep sqrt s1 s2 n i B).1 k = 0) :
+    ∀ k, k < nm → colDot s1 s2 n a B k = 0 := by
+  have hoth : ∀ k, k < nm → k ≠ i → colDot s1 s2 n a B k = 0 := by
+    intro k hk hki
+    rw [← colDot_step_other sqrt L B hB hi hnm hk hki a]; exact h k hk
+  intro k hk
+  by_cases hki : k = i
+  · subst hki
+    have h1 := h k hk
+    rw [colDot_step_self sqrt L B hB hk hnm a, div_eq_zero_iff] at h1
+    have h2 : ∑ j ∈ range n, a j * gsW s1 s2 n k B j = 0 := h1.resolve_right hs
+    rw [colDot_gsW] at h2
+    have : ∑ k' ∈ range k, (∑ j' ∈ range n, cell s1 s2 B j' k' * cell s1 s2 B j' k) * colDot s1 s2 n a B k' = 0 := by
+      apply Finset.sum_eq_zero
+      intro k' hk'
+      have hk'' := Finset.mem_range.mp hk'
+      rw [hoth k' (by omega) (by omega), mul_zero]
+    rw [this, sub_zero] at h2
+    exact h2
+  · exact hoth k hk hki
+
+/-! ## the fill loop l.58-107 -/
+
+theorem cell_put_eq (L : Lay s1 s2 n nm sz) (B : Array K) (hB : B.size = sz) {i k i' k' : Nat} (hi : i < n)
+    (hk : k < nm) (hi' : i' < n) (hk' : k' < nm) (v : K) :
+    cell s1 s2 (put s1 s2 B i k v) i' k' = if i = i' ∧ k = k' then v else cell s1 s2 B i' k' := by
+  by_cases h : i = i' ∧ k = k'
+  · obtain ⟨rfl, rfl⟩ := h
+    rw [if_pos ⟨rfl, rfl⟩]; exact cell_put_same L B hB hi hk v
+  · rw [if_neg h]; exact cell_put_other L B hi hk hi' hk' h v
+
+omit [Field K] in
+theorem foldl_size (step : Array K → Nat → Array K) (h : ∀ B j, (step B j).size = B.size) (l : List Nat)
+    (B : Array K) : (l.foldl step B).size = B.size := by
+  induction l generalizing B with
+  | nil => rfl
+  | cons x xs ih => rw [List.foldl_cons, ih, h]
+
+/-- row `j` written by the 2D loop body: what the row holds afterwards, given what it held (`old`) -/
+def row2 (sn : K) (coo : Array K) (j : Nat) (old : Nat → K) (k : Nat) : K :=
+  if k = 2 then (if j % 2 = 0 then - coo.getD (j / 2 * 2 + 1) 0 else coo.getD (j / 2 * 2 + 0) 0)
+  else if k = j % 2 then sn else old k
+
+/-- row `j` written by the 3D loop body -/
+def row3 (sn : K) (coo : Array K) (j : Nat) (old : Nat → K) (k : Nat) : K :=
+  if j % 3 = 0 then
+    (if k = 5 then coo.getD (j / 3 * 3 + 2) 0 else if k = 3 then coo.getD (j / 3 * 3 + 1) 0
+     else if k = 0 then sn else old k)
+  else if j % 3 = 1 then
+    (if k = 4 then - coo.getD (j / 3 * 3 + 2) 0 else if k = 3 then - coo.getD (j / 3 * 3 + 0) 0
+     else if k = 1 then sn else old k)
+  else
+    (if k = 5 then - coo.getD (j / 3 * 3 + 0) 0 else if k = 4 then coo.getD (j / 3 * 3 + 1) 0
+     else if k = 2 then sn else old k)
+
+theorem fillRow2_cell (L : Lay s1 s2 n 3 sz) (sn : K) (coo : Array K) (B : Array K) (hB : B.size = sz) {j j' k : Nat}
+    (hj : j < n) (hj' : j' < n) (hk : k < 3) :
+    cell s1 s2 (fillRow2 sn coo s1 s2 B j) j' k
+      = if j' = j then row2 sn coo j (cell s1 s2 B j) k else cell s1 s2 B j' k := by
+  have hd : j % 2 < 3 := by omega
+  have h1 : (put s1 s2 B j (j % 2) sn).size = sz := by rw [size_put]; exact hB
+  unfold fillRow2 row2
+  dsimp only
+  split
+  · rw [cell_put_eq L _ h1 hj (by omega) hj' hk, cell_put_eq L _ hB hj hd hj' hk]
+    by_cases e : j' = j
+    · subst e; simp only [true_and, if_true]; split_ifs <;> first | rfl | omega
+    · have e' : ¬ j = j' := fun h => e h.symm
+      simp only [e, e', false_and, if_false]
+  · rw [cell_put_eq L _ h1 hj (by omega) hj' hk, cell_put_eq L _ hB hj hd hj' hk]
+    by_cases e : j' = j
+    · subst e; simp only [true_and, if_true]; split_ifs <;> first | rfl | omega
+    · have e' : ¬ j = j' := fun h => e h.symm
+      simp only [e, e', false_and, if_false]
+
+theorem fillRow3_cell (L : Lay s1 s2 n 6 sz) (sn : K) (coo : Array K) (B : Array K) (hB : B.size = sz) {j j' k : Nat}
+    (hj : j < n) (hj' : j' < n) (hk : k < 6) :
+    cell s1 s2 (fillRow3 sn coo s1 s2 B j) j' k
+      = if j' = j then row3 sn coo j (cell s1 s2 B j) k else cell s1 s2 B j' k := by
+  have hd : j % 3 < 6 := by omega
+  have h1 : (put s1 s2 B j (j % 3) sn).size = sz := by rw [size_put]; exact hB
+  have h2 : ∀ k v, (put s1 s2 (put s1 s2 B j (j % 3) sn) j k v).size = sz := by
+    intro k v; rw [size_put]; exact h1
+  unfold fillRow3 row3
+  dsimp only
+  split
+  · rw [cell_put_eq L _ (h2 _ _) hj (by omega) hj' hk, cell_put_eq L _ h1 hj (by omega) hj' hk,
+      cell_put_eq L _ hB hj hd hj' hk]
+    by_cases e : j' = j
+    · subst e; simp only [true_and, if_true]; split_ifs <;> first | rfl | omega
+    · have e' : ¬ j = j' := fun h => e h.symm
+      simp only [e, e', false_and, if_false]
+  · split
+    · rw [cell_put_eq L _ (h2 _ _) hj (by omega) hj' hk, cell_put_eq L _ h1 hj (by omega) hj' hk,
+        cell_put_eq L _ hB hj hd hj' hk]
+      by_cases e : j' = j
+      · subst e; simp only [true_and, if_true]; split_ifs <;> first | rfl | omega
+      · have e' : ¬ j = j' := fun h => e h.symm
+        simp only [e, e', false_and, if_false]
+    · rw [cell_put_eq L _ (h2 _ _) hj (by omega) hj' hk, cell_put_eq L _ h1 hj (by omega) hj' hk,
+        cell_put_eq L _ hB hj hd hj' hk]
+      by_cases e : j' = j
+      · subst e; simp only [true_and, if_true]; split_ifs <;> first | rfl | omega
+      · have e' : ¬ j = j' := fun h => e h.symm
+        simp only [e, e', false_and, if_false]
+
+theorem fill2_spec (L : Lay s1 s2 n 3 sz) (sn : K) (coo : Array K) (B : Array K) (hB : B.size = sz) :
+    (fill 2 sn coo s1 s2 n B).size = sz ∧
+    ∀ j k, j < n → k < 3 → cell s1 s2 (fill 2 sn coo s1 s2 n B) j k = row2 sn coo j (cell s1 s2 B j) k := by
+  unfold fill
+  rw [if_pos rfl]
+  have := fold_rows (s1 := s1) (s2 := s2) (n := n) (nm := 3) (sz := sz) (fillRow2 sn coo s1 s2) (row2 sn coo)
+    (by intro B j hB _; unfold fillRow2; dsimp only; split <;> (rw [size_put, size_put]; exact hB))
+    (by intro B j j' k hB hj hj' hk hne; rw [fillRow2_cell L sn coo B hB hj hj' hk, if_neg hne])
+    (by intro B j k hB hj hk; rw [fillRow2_cell L sn coo B hB hj hj hk, if_pos rfl])
+    (by intro j r r' k hk h; unfold row2; rw [h k hk])
+    B hB n (le_refl _)
+  refine ⟨this.1, ?_⟩
+  intro j k hj hk
+  rw [this.2 j k hj hk, if_pos hj]
+
+theorem fill3_spec (L : Lay s1 s2 n 6 sz) (sn : K) (coo : Array K) (B : Array K) (hB : B.size = sz) :
+    (fill 3 sn coo s1 s2 n B).size = sz ∧
+    ∀ j k, j < n → k < 6 → cell s1 s2 (fill 3 sn coo s1 s2 n B) j k = row3 sn coo j (cell s1 s2 B j) k := by
+  unfold fill
+  rw [if_neg (by decide)]
+  have := fold_rows (s1 := s1) (s2 := s2) (n := n) (nm := 6) (sz := sz) (fillRow3 sn coo s1 s2) (row3 sn coo)
+    (by
+      intro B j hB _; unfold fillRow3; dsimp only
+      split
+      · rw [size_put, size_put, size_put]; exact hB
+      · split <;> (rw [size_put, size_put, size_put]; exact hB))
+    (by intro B j j' k hB hj hj' hk hne; rw [fillRow3_cell L sn coo B hB hj hj' hk, if_neg hne])
+    (by intro B j k hB hj hk; rw [fillRow3_cell L sn coo B hB hj hj hk, if_pos rfl])
+    (by intro j r r' k hk h; unfold row3; rw [h k hk])
+    B hB n (le_refl _)
+  refine ⟨this.1, ?_⟩
+  intro j k hj hk
+  rw [this.2 j k hj hk, if_pos hj]
+
+omit [Field K] in
+theorem size_resize [Zero K] (B : Array K) (m : Nat) : (resize B m).size = m := by
+  unfold resize; simp
+
+theorem resize_empty_getD (m t : Nat) : (resize (#[] : Array K) m).getD t 0 = 0 := by
+  unfold resize
+  rw [Array.getD_eq_getD_getElem?, Array.getElem?_ofFn]
+  split <;> simp
+
+theorem lay_of (tr : Bool) (n nm : Nat) : Lay (if tr then 1 else nm) (if tr then n else 1) n nm (n * nm) := by
+  cases tr
+  · simpa using lay_rowmajor n nm
+  · simpa using lay_transposed n nm
 
 end cells
 end RBM
